@@ -42,7 +42,7 @@ os.environ.setdefault("NUMBA_NUM_THREADS", "4")      # shared machine; the polyn
 F = Fraction
 PROPS = ["HitenModel.Props.C08"]
 SRC = ["HitenModel.Core.C08", "HitenModel.Gen.C08", "HitenModel.Lemmas.C08", "HitenModel.Lemmas.C08Mv", "HitenModel.Lemmas.C08NF",
-       "HitenModel.Lemmas.LieSeries", "HitenModel.Lemmas.LieSeriesModel", "HitenModel.Lemmas.LieSeriesIter", "HitenModel.Props.C08", "Drivers.C08"]
+       "HitenModel.Lemmas.LieSeries", "HitenModel.Lemmas.LieSeriesModel", "HitenModel.Lemmas.LieSeriesIter", "HitenModel.Lemmas.LieSeriesCanon", "HitenModel.Props.C08", "Drivers.C08"]
 NMAX_GEN = 10
 REL = 1e-10          # correspondence tolerance (relative to the largest coefficient of the compared polynomial)
 GUARD = 1e-14        # expected small-divisor threshold (checked by probing in gen())
